@@ -12,7 +12,7 @@ def ob(name, nev, nmax, **kw):
              restrict_fp=FP, replace_calls={'add_chkpnt': 'env_add_chkpnt', 'make_chld': 'env_make_chld', 'free_chld': 'env_free_chld'}, allow_nobody=['snprintf', 'lseek', 'echs_log', 'echs_errlog', 'obint_name', 'dt_strf'],
              enc=['task_cb', 'chld_cb', 'run_task', 'vtodoify', 'make_chld', 'free_chld', 'unsched'],
              sym='both limits and the schedule of %d events' % nev, bounds='2 tasks, %d events, limits 1..%d or unset' % (nev, nmax),
-             outside='longer schedules; the real libev; real processes',
+             outside='longer schedules; more than 4 supervised executions alive at once (capacity of the stand-ins, assumed); the real libev; real processes',
              stubs=['make_chld/free_chld replaced by a separate-objects allocator (the malloc-threaded pool costs > 40 GB of formula)', 'add_chkpnt() cut (goto-instrument --replace-calls): checkpoint bookkeeping is C06', 'libev/spawn/fd stand-ins (harness/common/echsd_env.h)', 'fdprnt.h pre-empted by capturing writers', 'hook pool sizes 2/4'])
     o.update(kw)
     return o
